@@ -104,7 +104,7 @@ PROFILES = {
     "C05": dict(BASE, X=24, P=7),
     "C06": dict(BASE, N=8, u=7, ub=4, n=8, U=8, P=8, H=4, X=6),
     "C10": dict(BASE, D=4, T=4, C=5),
-    "C04": dict(BASE, D=3, T=2, C=4, X=18),
+    "C04": dict(BASE, D=3, T=2, C=3, X=14, P=8),
     "C07": dict(BASE, X=18, P=7),
     "C09": dict(BASE, X=10),
 }
